@@ -35,7 +35,10 @@ RULE = (
     'one evaluation EVERY boundary of the recorded trace is a crash point, EVERY operation x errno a fault point, '
     'every write (before/half-way) and every body position a body-exception point (classes "pt:*" in the histogram '
     'count these points; "evaluations" counts scenarios/schedules).  BSP.save of tests/test_vec/rot_main.bsp over '
-    'an older file is enumerated the same way (points partitioned over slices).  Two-writer schedules: each job is 1-2 '
+    'an older file is enumerated the same way (points partitioned over slices).  After every handled failure a complete use of ANOTHER '
+    'writer object on another file must write exactly its own data; bsp_history: [failing save of synthesised map A at '
+    'every stride-th boundary] then complete saves of a different map B (other game-lump ids/sizes; expected bytes '
+    'from plain saves made before any failure).  Two-writer schedules: each job is 1-2 '
     'consecutive uses of one AtomicWriter object; all merges of the two boundary traces for the minimal single-use '
     'writers, all two-block merges against a twice-used writer, Hypothesis-drawn (bit or run-length) schedules for '
     'larger ones.  Non-trivial '
@@ -633,6 +636,19 @@ def spell_target(style: str, root: str, base: str, dest: str):
     raise HarnessError(f'unknown path style {style!r}')
 
 
+AFTER_REL = 'd/after.bin'
+AFTER_DATA = blob(4242, 9000)
+
+
+def follow_up(root: str) -> None:
+    """After a handled failure: a complete use of ANOTHER writer object on another file in the same directory.
+    Nothing of the failed use may influence it (checked by check_listing: the file holds exactly AFTER_DATA)."""
+    from srctools import AtomicWriter
+    with AtomicWriter(os.path.join(root, AFTER_REL), is_bytes=True) as f:
+        f.write(AFTER_DATA[:100])
+        f.write(AFTER_DATA[100:])
+
+
 def run_once(plan: Plan, root: str, rec: Recorder, harness_raise=None, exc_kind=None) -> dict:
     """Populate `root`, run the scenario under FaultFS with `rec` as hook.  Returns the outcome.
 
@@ -663,6 +679,8 @@ def run_once(plan: Plan, root: str, rec: Recorder, harness_raise=None, exc_kind=
             else:
                 out['committed'] = 1
                 rec({'op': 'end', 'at': 'pre', 'path': plan.dest})
+            if out['exc'] is not None:
+                follow_up(fs.root)
             return out
         from srctools import AtomicWriter
         if plan.text:
@@ -710,6 +728,8 @@ def run_once(plan: Plan, root: str, rec: Recorder, harness_raise=None, exc_kind=
                 break
             out['committed'] = ph + 1
             rec({'op': 'end', 'at': 'pre', 'path': plan.dest})
+        if out['exc'] is not None:
+            follow_up(fs.root)
         return out
     finally:
         fs.uninstall()
@@ -762,6 +782,8 @@ def check_listing(ctx, plan: Plan, root: str, committed: int, prefix: str, what:
     """After the `with` statement is over: the files are exactly the initial ones plus the committed destination
     (`allow`: paths that may, but need not, exist in addition)."""
     exp = plan.expected_after(committed)
+    if prefix != 'normal':
+        exp[AFTER_REL] = AFTER_DATA        # written by follow_up() after the handled failure
     got = snapshot(root)
     for rel in allow:
         if rel not in exp:
@@ -777,7 +799,11 @@ def check_listing(ctx, plan: Plan, root: str, committed: int, prefix: str, what:
                  f'{what}: file(s) left behind: {extra} (initial listing {sorted(plan.initial)}, destination {plan.dest})',
                  extra=extra, **facts)
     for rel in sorted(exp):
-        if rel != plan.dest and got.get(rel) != exp[rel]:
+        if rel == AFTER_REL and got.get(rel) != exp[rel]:
+            ctx.fail('later_writer_polluted',
+                     f'{what}; then a complete use of another AtomicWriter on {rel}: it holds {short(got.get(rel))}, '
+                     f'expected exactly what was written: {short(exp[rel])}', **facts)
+        elif rel != plan.dest and got.get(rel) != exp[rel]:
             ctx.fail(prefix + '_other_file_changed',
                      f'{what}: pre-existing file {rel} changed: {short(got.get(rel))}, was {short(exp[rel])}',
                      changed=rel, **facts)
@@ -1421,6 +1447,180 @@ def execute_two(desc, ctx) -> None:
 
 
 # ----------------------------------------------------------------------------------------------------------------
+# BSP.save histories over DIFFERENT BSP objects/files in one process: [failing save of map A] [save of map B] ...
+
+HIST_IDS = [b'aaaa', b'bbbb', b'cccc', b'dddd', b'eeee']
+HIST_LUMPS = ['ENTITIES', 'PLANES', 'VERTEXES', 'VISIBILITY', 'TEXDATA_STRING_DATA', 'LIGHTING', 'PAKFILE']
+
+
+def minimal_bsp(rev: int) -> bytes:
+    """An empty version-20 BSP: header, 64 empty lumps (the game lump holds an empty table), the map revision."""
+    import struct
+    header = 8 + 64 * 16 + 4
+    lumps = b''.join(struct.pack('<iiii', header, 4, 0, 0) if i == 35 else bytes(16) for i in range(64))
+    return b'VBSP' + struct.pack('<i', 20) + lumps + struct.pack('<i', rev) + struct.pack('<i', 0)
+
+
+def build_map(case_dir: str, k: int, m: dict):
+    """A BSP object made from the descriptor, and what a plain save of it writes (computed before any failure)."""
+    from srctools.bsp import BSP, BSP_LUMPS, GameLump
+    seed_path = os.path.join(case_dir, f'seed{k}.bsp')
+    with _R_OPEN(seed_path, 'wb') as f:
+        f.write(minimal_bsp(m['rev']))
+    bsp = BSP(seed_path)
+    _R_UNLINK(seed_path)
+    for j, (li, size) in enumerate(m['lumps']):
+        bsp.lumps[BSP_LUMPS[HIST_LUMPS[li % len(HIST_LUMPS)]]].data = blob(m['rev'] * 50 + j, 5 + size)
+    for j, (gi, ver, size) in enumerate(m['game']):
+        gid = HIST_IDS[gi % len(HIST_IDS)]
+        bsp.game_lumps[gid] = GameLump(gid, 0, ver, blob(m['rev'] * 70 + j, 5 + size))
+    ref_dir = os.path.join(case_dir, f'ref{k}')
+    _R_MKDIR(ref_dir)
+    ref = os.path.join(ref_dir, 'ref.bsp')
+    bsp.save(ref)
+    new = read_file(ref)
+    bsp.save(ref)
+    if read_file(ref) != new:
+        raise HarnessError('BSP.save is not repeatable on the same object; reference contents are ambiguous')
+    shutil.rmtree(ref_dir)
+    return bsp, new
+
+
+def hist_action(desc, trace: list, i: int):
+    """The failure used at boundary i of map A's save (None: not selected)."""
+    stride, offset = desc['stride']
+    b = trace[i]
+    if i % stride != offset or b['op'] == 'end':
+        return None
+    r = i // stride + desc['rot']
+    if b['at'] == 'mid':
+        return {'at': i, 'act': 'body', 'exc': EXC_KINDS[r % len(EXC_KINDS)]}
+    acts = list(ERRS[b['op']])
+    if b['op'] == 'write':
+        acts += ['body:' + k for k in EXC_KINDS]
+    act = acts[r % len(acts)]
+    if act.startswith('body:'):
+        return {'at': i, 'act': 'body', 'exc': act[5:]}
+    return {'at': i, 'act': act}
+
+
+def execute_hist(desc, ctx) -> None:
+    with CaseDir() as cd:
+        built = [build_map(cd.path, k, m) for k, m in enumerate(desc['maps'])]
+        bsps = [b for b, _ in built]
+        news = [n for _, n in built]
+        dests = ['d/a.bsp', 'd/b.bsp']
+        olds = [minimal_bsp(900 + k) + blob(k, 33 * k) for k in range(2)]
+        initial = {'d/keep.dat': blob(8, 21), dests[0]: olds[0], dests[1]: olds[1]}
+        ids = [set(b.game_lumps) for b in bsps]
+        ctx.label('hist:A_has_id_B_lacks' if ids[0] - ids[1] else 'hist:ids_subset')
+
+        def populate(root: str) -> None:
+            os.mkdir(root)
+            os.mkdir(os.path.join(root, 'd'))
+            for rel, data in initial.items():
+                with _R_OPEN(os.path.join(root, rel), 'wb') as f:
+                    f.write(data)
+
+        def save(k: int, root: str, rec: Recorder):
+            """One BSP.save under FaultFS; returns the injected exception it propagated, or None."""
+            fs = FaultFS(root, rec)
+            fs.install()
+            try:
+                bsps[k].save(os.path.join(fs.root, dests[k]))
+            except BaseException as exc:
+                if not rec.is_mine(exc):
+                    raise
+                return exc
+            finally:
+                fs.uninstall()
+            return None
+
+        def expect(root: str, state: list, what: str, **facts) -> None:
+            exp = dict(initial)
+            for k in range(2):
+                exp[dests[k]] = state[k]
+            got = snapshot(root)
+            for k in range(2):
+                if got.get(dests[k]) != state[k]:
+                    names = {'old': olds[k], 'complete new': news[k]}
+                    ctx.fail('hist_dest', f'{what}: {dests[k]} holds {which(got.get(dests[k]), names)}, expected '
+                             f'{which(state[k], names)}' + diff_note(got.get(dests[k]), state[k]), which=k, **facts)
+            extra = sorted(set(got) - set(exp))
+            if extra:
+                ctx.fail('hist_temp_left', f'{what}: file(s) left behind: {extra}', **facts)
+            if got.get('d/keep.dat') != initial['d/keep.dat']:
+                ctx.fail('hist_other_file_changed', f'{what}: d/keep.dat changed', **facts)
+
+        # trace of map A's save (un-faulted), to enumerate its points
+        root = cd.fresh()
+        populate(root)
+        rec = Recorder()
+        if save(0, root, rec) is not None:
+            raise HarnessError('un-faulted save failed')
+        trace = rec.trace
+        expect(root, [news[0], olds[1]], 'after a plain save of map A')
+        cd.drop(root)
+        fours = [i for i, b in enumerate(trace) if b['op'] == 'write' and b['at'] == 'pre' and b['n'] == 4]
+        gl_start = fours[1] if len(fours) > 1 else len(trace)      # revision, then the game-lump count
+        hit_late = False
+        for i in range(len(trace)):
+            act = hist_action(desc, trace, i)
+            if act is None:
+                continue
+            root = cd.fresh()
+            populate(root)
+            rec = Recorder(act)
+            exc = save(0, root, rec)
+            if not rec.fired:
+                raise HarnessError(f'history: failure at boundary {i} never fired')
+            same_prefix(trace, rec.trace, i, f'hist {act}')
+            b = trace[i]
+            how = f'save of map A with {act.get("exc") or act["act"]} at boundary {i} ({b["at"]} {b["op"]})'
+            ctx.label('pt:hist')
+            ctx.count()
+            state = [olds[0] if exc is not None else news[0], olds[1]]
+            if exc is not None:
+                ctx.label('pt:hist_failed_save')
+                if i > gl_start:
+                    ctx.label('pt:hist_fail_after_gamelump_table')
+                    hit_late = True
+            expect(root, state, how + (' failed' if exc is not None else ' swallowed the error'), boundary=i)
+            for k in desc['then']:
+                # a later complete save of a (different) map; nothing of the failed one may leak into it
+                if save(k, root, Recorder()) is not None:
+                    raise HarnessError('un-faulted save failed')
+                state[k] = news[k]
+                expect(root, state, how + f'; then a complete save of map {"AB"[k]}', boundary=i, later=k)
+            cd.drop(root)
+        ctx.nontrivial(bool(ids[0] - ids[1]) and hit_late and news[0] != news[1])
+
+
+def diff_note(got, want) -> str:
+    if got is None or want is None or got == want:
+        return ''
+    if len(got) != len(want):
+        return f' (length {len(got)} vs {len(want)})'
+    bad = [j for j in range(len(got)) if got[j] != want[j]]
+    return f' ({len(bad)} differing bytes, first at offset {bad[0]})'
+
+
+def hist_strategy(tier: str):
+    gl = st.lists(st.tuples(st.integers(0, 4), st.integers(0, 3), st.integers(0, 300)).map(list),
+                  min_size=0, max_size=4, unique_by=lambda t: t[0])
+    lumps = st.lists(st.tuples(st.integers(0, 6), st.integers(0, 3000)).map(list), max_size=4,
+                     unique_by=lambda t: t[0])
+    amap = st.fixed_dictionaries({'rev': st.integers(1, 60), 'lumps': lumps, 'game': gl})
+    stride = 9 if tier == 'quick' else 3
+    return st.fixed_dictionaries({
+        'maps': st.tuples(amap, amap).map(list),
+        'stride': st.integers(0, stride - 1).map(lambda o: [stride, o]),
+        'rot': st.integers(0, 7),
+        'then': st.sampled_from([[1], [1], [1, 0], [1, 1]]),
+    })
+
+
+# ----------------------------------------------------------------------------------------------------------------
 # generators
 
 SIZES_SMALL = st.integers(0, 40)
@@ -1623,6 +1823,8 @@ SUBCHECKS = [
     Sub('bsp_body', execute_body, enumerate=bsp_enum, floor=1, quick_shards=8,
         must_hit=('bsp', 'bare_name', 'pt:body:pre', 'pt:body:mid', 'exc:KeyboardInterrupt', 'exc:SystemExit',
                   'exc:GeneratorExit', 'exc:BaseException')),
+    Sub('bsp_history', execute_hist, strategy=hist_strategy, quick=64, thorough=2000, floor=10, quick_shards=8,
+        must_hit=('hist:A_has_id_B_lacks', 'pt:hist_failed_save', 'pt:hist_fail_after_gamelump_table')),
     Sub('two_enum', execute_two, enumerate=two_enum, floor=1500, quick_shards=8,
         must_hit=('schedule_valid', 'temp_name_contention', 'one_writer_fails', 'two:reuse_interleaved',
                   'two:reuse_released_name')),
